@@ -199,14 +199,18 @@ root at `x`, each prime counted once per distinct root (`class_loops_cover`) —
 bucket tables (`tableHits`), exactly in the checked profile and modulo 256 in release. When the factor base has no
 prime ≥ 32768 (`s.tables.size = 0`: no bucket table exists and the code returns before the table loops) this is
 the complete closed form `blk[x] = Σ bitlen p over the non-skipped primes with a root at x`.
-PARTIAL (name): the table term `hitSum th x` is expanded into `Σ bitlen p over the table primes with a root at x` only
-in `accumulator_spec_tables` (bases below 2^18, path `new → rounds → sieve_block`, no counted overflow). Missing for the
-general statement: (1) `LTable` analogue of `Table.foldl_bucket_exact`/`new_tablesExact` (buckets of 1024 in 16384-wide
-windows, unbounded overflow vector, read through `ltableBucketHits`): `hitSum` of the large-table part
-`= Σ_{pidx ≥ ibl[19]} tabF pidx`; (2) `TablesExact` after `rehash` (re-filled tables: `rehashTable` resets then runs the
-same `newLargeStep` fold with the new roots and `blkNo = 0`); (3) with `nOverflows > 0` in a class 16..18 table:
-`hitSum th x ≤ Σ tabF` (a bucket then holds a prefix-filtered sublist of `flatMap partL`), which gives no-overflow but
-only `≤` for the closed form. The oracle checks the closed form including all of these on the code. -/
+PARTIAL (name): the table term `hitSum th x` is expanded into `Σ bitlen p over the primes ≥ 32768 with a root at x`
+on the path `new → rounds → sieve_block` for any factor-base size (`accumulator_spec_large`, exact when no table lost an
+entry; `accumulator_no_overflow_new`, `≤` without any hypothesis on the overflow counters). Missing for the unrestricted
+names `accumulator_spec` / `accumulator_no_overflow`: the rehash path. Exact missing statements: (a) `rehash fb s r1' r2'
+= some s'` (with `Inv` and sized tables for `s`) implies `TShape fb (offsV fb r1' r2' (nblocks·BLOCK)) nblocks s'.tables`
+and `LShape fb (offsV fb r1' r2' (nblocks·BLOCK)) nblocks s'.ltables` — `rehashTable`/`rehashLTable` are add folds over
+`vlargeOffsets`, so `table_class_shape`/`ltable_class_shape` apply once the single loop of `rehashStep` over the factor
+base is split per size class (`range' 0 n = range' 0 idx1 ++ range' idx1 (idx2 − idx1) ++ range' idx2 (n − idx2)`, steps
+outside the class leave the table alone) and the buckets of the reset tables are shown empty; (b) `class_loops_cover`
+and `accumulator_hits_spec` composed along `rehashRounds` (the invariant `Inv` with the last roots is available from
+`rehashRounds_spec`). `tableHits_rel`, `allClassSum_collapse`, `tabSum_le` are already generic in the offsets function
+and need no change. The oracle checks the closed form on the rehash path on the code. -/
 theorem accumulator_spec_partial (dbg : Bool) (fb : FB) (hfb : fb.WF) (r1 r2 : Array Nat) (hr : RootsOK fb r1 r2)
     (offset : Int) (nblocks : Nat) (recycled : Option (Array Table × Array LTable)) (hrec : RecycledOK recycled)
     (s0 s1 s : State) (h0 : Sieve.new offset nblocks fb r1 r2 recycled = some s0)
